@@ -111,7 +111,7 @@ type factory struct {
 	nonce int64
 	priv  crypto.PrivKey
 	addrs []string
-	// blocks made so far by hash (parents for further blocks)
+	base  map[bool]int // size of a block without padding, by class (calibrated on the fly)
 }
 
 func newFactory(seed int64) (*factory, error) {
@@ -119,7 +119,7 @@ func newFactory(seed int64) (*factory, error) {
 	if err != nil {
 		return nil, err
 	}
-	f := &factory{n: n, nonce: seed<<24 + 1, priv: n.mock.GetGenesisKey()}
+	f := &factory{n: n, nonce: seed<<24 + 1, priv: n.mock.GetGenesisKey(), base: map[bool]int{}}
 	for i := 0; i < 4; i++ {
 		f.addrs = append(f.addrs, address.PubKeyToAddr(address.DefaultID, util.TestPrivkeyList[2+i].PubKey().Bytes()))
 	}
@@ -137,37 +137,90 @@ func (f *factory) coinsTx() *types.Transaction {
 	return tx
 }
 
-func (f *factory) noneTx() *types.Transaction {
+// noneTx makes a transaction of the none executor whose payload is pad bytes long (padding
+// blocks to a nominal size, see make).
+func (f *factory) noneTx(pad int) *types.Transaction {
 	f.nonce++
-	tx := util.CreateNoneTx(f.n.cfg, nil)
+	if pad < 4 {
+		pad = 4
+	}
+	payload := make([]byte, pad)
+	for i := range payload {
+		payload[i] = byte('a' + (int(f.nonce)+i)%26)
+	}
+	tx := &types.Transaction{Execer: []byte("none"), Payload: payload}
+	tx.To = address.ExecAddress("none")
+	tx, err := types.FormatTx(f.n.cfg, "none", tx)
+	if err != nil {
+		return nil
+	}
 	tx.Nonce = f.nonce
 	tx.Expire = 0
 	tx.Sign(types.SECP256K1, f.priv)
 	return tx
 }
 
+// Nominal sizes of the stored block detail (what push.go's getBlockSeqs adds up): a block
+// without a coins transfer is one unit, a block with one is two units. Real sizes lie in
+// [nominal-sizeSlack, nominal].
+const (
+	sizeUnit  = 4000
+	sizeSlack = 150
+)
+
+func nominalSize(rel bool) int {
+	if rel {
+		return 2 * sizeUnit
+	}
+	return sizeUnit
+}
+
+func detailSize(d *types.BlockDetail) int {
+	return (&types.BlockDetail{Block: d.Block, Receipts: d.Receipts}).Size()
+}
+
 // make builds a valid block on parent. rel = the block carries a coins transfer (what the
-// receipt subscribers of this harness ask for); otherwise a transaction of the none executor.
+// receipt subscribers of this harness ask for). Every block carries a transaction of the none
+// executor whose payload pads the block to its nominal size.
 func (f *factory) make(parent *types.Block, rel bool) (*types.Block, error) {
 	f.mu.Lock()
 	defer f.mu.Unlock()
-	var tx *types.Transaction
-	if rel {
-		tx = f.coinsTx()
-	} else {
-		tx = f.noneTx()
+	target := nominalSize(rel)
+	pad := target - f.base[rel] - sizeSlack/2
+	if f.base[rel] == 0 {
+		pad = 4
 	}
-	blk := util.CreateNewBlock(f.n.cfg, parent, []*types.Transaction{tx})
-	blk.Difficulty = parent.Difficulty
-	detail, del, err := util.ExecBlock(f.n.mock.GetClient(), parent.StateHash, blk, false, true, false)
-	if err != nil {
-		return nil, fmt.Errorf("factory exec: %v", err)
+	for try := 0; try < 4; try++ {
+		var txs []*types.Transaction
+		if rel {
+			txs = append(txs, f.coinsTx())
+		}
+		ntx := f.noneTx(pad)
+		if ntx == nil {
+			return nil, errors.New("factory: cannot format the padding transaction")
+		}
+		txs = append(txs, ntx)
+		blk := util.CreateNewBlock(f.n.cfg, parent, txs)
+		blk.Difficulty = parent.Difficulty
+		detail, del, err := util.ExecBlock(f.n.mock.GetClient(), parent.StateHash, blk, false, true, false)
+		if err != nil {
+			return nil, fmt.Errorf("factory exec: %v", err)
+		}
+		if len(del) != 0 || len(detail.Block.Txs) != len(txs) {
+			return nil, fmt.Errorf("factory dropped a transaction")
+		}
+		if rel && detail.Receipts[0].Ty != types.ExecOk {
+			return nil, fmt.Errorf("factory coins transfer receipt type %d", detail.Receipts[0].Ty)
+		}
+		sz := detailSize(detail)
+		if f.base == nil {
+			f.base = map[bool]int{}
+		}
+		f.base[rel] = sz - pad
+		if sz <= target && sz >= target-sizeSlack {
+			return types.Clone(detail.Block).(*types.Block), nil
+		}
+		pad = target - f.base[rel] - sizeSlack/2
 	}
-	if len(del) != 0 || len(detail.Block.Txs) != 1 {
-		return nil, fmt.Errorf("factory dropped the transaction")
-	}
-	if ty := detail.Receipts[0].Ty; ty != types.ExecOk && !(ty == types.ExecPack && !rel) {
-		return nil, fmt.Errorf("factory transaction receipt type %d", detail.Receipts[0].Ty)
-	}
-	return types.Clone(detail.Block).(*types.Block), nil
+	return nil, fmt.Errorf("factory: cannot pad a block to %d bytes", target)
 }
